@@ -253,6 +253,19 @@ pub fn cli_roundtrip(thorough: bool, seed: u64) {
                 o2.stderr.lines().last().unwrap_or("").chars().take(200).collect::<String>()
             );
         }
+        // dump and replace in ONE invocation, through the same file: the tool must still reproduce the model
+        if i % 4 == 1 {
+            let (cp2, op2) = (dir.join("dict2.csv"), dir.join("out2.zst"));
+            let _ = std::fs::remove_file(&op2);
+            let _ = std::fs::remove_file(&cp2);
+            let o4 = crate::cli::run_tool("manipulate_model", &["--model-in".into(), s(&mp), "--dump-dict".into(), s(&cp2), "--replace-dict".into(), s(&cp2), "--model-out".into(), s(&op2)], b"");
+            let back2 = crate::cli::read_zst(&op2);
+            // the tool may refuse the combination; if it accepts it, the result has to be the model
+            if o4.code == Some(0) && back2.as_deref() != Some(&bytes[..]) {
+                fails += 1;
+                println!("FAIL case={i} model={} --dump-dict D --replace-dict D in one run exited 0 but the output model is not the input model (identical={})", m.to_text(), back2.as_deref() == Some(&bytes[..]));
+            }
+        }
         // a record whose weight count does not match the word length must be rejected
         if i % 8 == 0 {
             std::fs::write(&cp, "word,weights,comment\nab,1 2,\n").unwrap();
